@@ -19,6 +19,7 @@ mod proc;
 mod c11;
 mod c12;
 mod c13;
+mod c15;
 mod execchild;
 mod c16;
 mod c17;
@@ -43,6 +44,7 @@ fn property(id: &str) -> Option<Property> {
         "C11" => c11::property(),
         "C12" => c12::property(),
         "C13" => c13::property(),
+        "C15" => c15::property(),
         "C16" => c16::property(),
         "C17" => c17::property(),
         "C19" => c19::property(),
